@@ -28,15 +28,16 @@ LEVEL_NOTE = ('holds for files with <= 2 groups over the bit alphabet {0,1,31,32
               'values outside 0..2**64-1. Trusted: the row writer and dict oracle in mc/props/c07.py, the yanny reader only as far as '
               'the conversions agree with the rows written.')
 RULE = ('files: first group = every non-empty subset (size <= 3, thorough also the full set) of the bit alphabet under 1-2 label naming '
-        'schemes x second group in {absent, 3 representatives incl. shared label names} x alias in {none, after the bits, before the '
-        'bits, of the second group} x row order in {ascending, reversed, interleaved}; queries per file and per group name form '
+        'schemes x second group in {absent, 3 representatives incl. shared label names} x alias row in {none, after the bits, before the '
+        'bits, of the second group, inside its group\'s block of rows} x row order in {ascending, reversed, interleaved row by row, '
+        'group 1 split in two blocks around group 2, group 2 split around group 1}; queries per file and per group name form '
         '(group / alias x UPPER, lower, mIxEd; unknown group): every ordered selection of <= 3 distinct labels x label case, bare-string '
         'label, unknown label at every position; every value over the 6 alphabet bits plus values with undefined bits, as int and '
-        'np.uint64, list and concat; sdss_flagexist in its 4 return shapes. A case is non-trivial unless it is the empty label list or '
+        'np.uint64 and (list form) as np.int64 two\'s complement scalar / 0-d array and 0-d uint64 array, list and concat; sdss_flagexist in its 4 return shapes. A case is non-trivial unless it is the empty label list or '
         'the value 0. Distinct = distinct (file rows, query).')
 ASSUMPTIONS = ['group, alias and label names in the file are upper-case (as in sdssMaskbits.par); case-insensitivity concerns the query',
                'labels passed to sdss_flagval are distinct (the property speaks of a set of distinct labels); one label per bit in a group',
-               'values are 0..2**64-1 as Python int or np.uint64; negative or wider values are not generated',
+               'values are 64-bit patterns given as Python int 0..2**64-1, np.uint64 scalar / 0-d array, or signed two\'s complement np.int64 scalar / 0-d array; negative Python ints and wider values are not generated',
                'unknown group with nothing to convert (value 0 / empty label list): both an empty result and KeyError are accepted',
                'sdss_flagexist is not queried with an empty label list (its overall answer would be vacuous)',
                'the module cache is replaced by a fresh copy of the loaded table before every query and restored at the end of the shard']
@@ -105,9 +106,18 @@ def file_rows(bits, scheme, second, alias, order):
     g2 = [['maskbits', G2, b, lab] for lab, b in (SECOND[second] or [])]
     if order == 'rev':
         g1, g2 = g1[::-1], g2[::-1]
+    # alias rows placed inside a group's block of rows
+    if alias == 'middle':
+        g1 = g1[:1] + [['maskalias', G1, ALIAS]] + g1[1:]
+    if alias == 'middle2':
+        g2 = g2[:1] + [['maskalias', G2, ALIAS]] + g2[1:]
+    types = [['masktype', G1, 64]] + ([['masktype', G2, 64]] if g2 else [])
     if order == 'interleave':
-        body = [x for pair in itertools.zip_longest(g1, g2) for x in pair if x is not None]
-        body = [['masktype', G1, 64]] + ([['masktype', G2, 64]] if g2 else []) + body
+        body = types + [x for pair in itertools.zip_longest(g1, g2) for x in pair if x is not None]
+    elif order == 'split1':      # group 1 in two blocks around all rows of group 2
+        body = types + g1[:1] + g2 + g1[1:]
+    elif order == 'split2':      # group 2 in two blocks around all rows of group 1
+        body = types + g2[:1] + g1 + g2[1:]
     else:
         body = [['masktype', G1, 64]] + g1 + ([['masktype', G2, 64]] + g2 if g2 else [])
     if alias == 'after':
@@ -119,13 +129,28 @@ def file_rows(bits, scheme, second, alias, order):
     return body
 
 
-def files_of(task):
-    second = task['second']
-    aliases = ['none', 'after', 'before'] + (['second'] if second != 'none' else [])
-    orders = ['asc', 'rev'] + (['interleave'] if second != 'none' and task['thorough'] else [])
+def layouts(task):
+    """(alias position, row order) pairs of a shard.  Orders: ascending, reversed, groups interleaved row by row, group 1
+    split into two blocks around group 2, group 2 split around group 1; alias row after / before all bits, of the second
+    group, or in the middle of its group's rows."""
+    nb = len(task['bits'])
+    n2 = len(SECOND[task['second']] or [])
+    orders = ['asc', 'rev'] + (['interleave'] if n2 else []) + (['split1'] if n2 and nb >= 2 else []) + (['split2'] if n2 >= 2 else [])
+    aliases = (['none', 'after', 'before'] + (['second'] if n2 else []) + (['middle'] if nb >= 2 else [])
+               + (['middle2'] if n2 >= 2 else []))
     for alias in aliases:
         for order in orders:
-            yield file_rows(task['bits'], task['scheme'], second, alias, order)
+            if task['thorough']:
+                keep = alias in ('none', 'after', 'before', 'second') or order in ('asc', 'split1', 'split2')
+            else:
+                keep = alias in ('none', 'after') or order == 'asc' or (alias == 'second' and order in ('split1', 'split2'))
+            if keep:
+                yield alias, order
+
+
+def files_of(task):
+    for alias, order in layouts(task):
+        yield file_rows(task['bits'], task['scheme'], task['second'], alias, order)
 
 
 def tasks(tier):
@@ -210,6 +235,10 @@ def queries(groups, alias, thorough):
                 for vt in ('int', 'uint64'):
                     for concat in (False, True):
                         yield {'f': 'flagname', 'group': gname, 'value': v, 'vtype': vt, 'concat': concat}
+                if gc == 'upper':
+                    # how a FITS 64-bit mask column delivers the value: signed two's complement, numpy scalar or 0-d array
+                    for vt in ('int64', 'int64-0d', 'uint64-0d'):
+                        yield {'f': 'flagname', 'group': gname, 'value': v, 'vtype': vt, 'concat': False}
             # --- sdss_flagexist
             pool = labels[:3]
             sels = [list(s) for r in (1, 2) for s in itertools.permutations(pool, r)]
@@ -230,7 +259,7 @@ def queries(groups, alias, thorough):
         for labs in ([], [anylabel], anylabel, [anylabel, NOLABEL]):
             yield {'f': 'flagval', 'group': gname, 'labels': labs, 'nvn': False}
         for v in (0, 1, 2 ** 63, FULL):
-            for vt in ('int', 'uint64'):
+            for vt in ('int', 'uint64', 'int64', 'int64-0d'):
                 for concat in (False, True):
                     yield {'f': 'flagname', 'group': gname, 'value': v, 'vtype': vt, 'concat': concat}
         for labs in (anylabel, [anylabel], [anylabel, NOLABEL]):
@@ -240,6 +269,18 @@ def queries(groups, alias, thorough):
 
 
 # ------------------------------------------------------------------ oracle + evaluation of one query
+def value_arg(v, vtype):
+    """The 64-bit pattern v (0..2**64-1) in the requested representation."""
+    if vtype == 'int':
+        return v
+    if vtype == 'uint64':
+        return np.uint64(v)
+    if vtype == 'uint64-0d':
+        return np.array(v, dtype=np.uint64)
+    signed = v - 2 ** 64 if v >= 2 ** 63 else v      # two's complement reading of the same 64 bits
+    return np.int64(signed) if vtype == 'int64' else np.array(signed, dtype=np.int64)
+
+
 def _table(groups, alias, name):
     u = name.upper()
     if u in groups:
@@ -296,7 +337,7 @@ def eval_query(groups, alias, q):
         return bad, 'ok:flagval:value:%d-labels%s' % (len(up), ':bit63' if want[1] >> 63 else '')
     if f == 'flagname':
         v = q['value']
-        arg = v if q['vtype'] == 'int' else np.uint64(v)
+        arg = value_arg(v, q['vtype'])
         if table is None:
             want = ('either', []) if v == 0 else ('KeyError', 'unknown-group')
         else:
@@ -333,7 +374,9 @@ def eval_query(groups, alias, q):
                 except Exception as e:  # noqa: BLE001
                     bad.append(('roundtrip:value-names-value:exception:%s' % type(e).__name__, '%r for %s' % (e, q)))
         undefined = table is not None and (v & ~sum(2 ** b for b in table.values())) != 0
-        return bad, 'ok:flagname:%s:%d-names%s' % ('concat' if q['concat'] else 'list', len(names), ':undefined-bits-ignored' if undefined else '')
+        neg = ':negative-int64' if q['vtype'].startswith('int64') and v >= 2 ** 63 else ''
+        return bad, 'ok:flagname:%s:%d-names%s%s' % ('concat' if q['concat'] else 'list', len(names),
+                                                     ':undefined-bits-ignored' if undefined else '', neg)
     if f == 'flagexist':
         labs = q['labels']
         lablist = [labs] if isinstance(labs, str) else list(labs)
@@ -394,7 +437,7 @@ def _transforms(groups, alias, q):
             out.append(('bit63', dict(q, labels=[x for x in labs if table.get(x.upper()) != 63])))
     if q['f'] == 'flagname':
         if q['vtype'] != 'int':
-            out.append(('uint64-value', dict(q, vtype='int')))
+            out.append((q['vtype'] + '-value', dict(q, vtype='int')))
         if table is not None:
             defined = sum(2 ** b for b in table.values())
             if q['value'] & ~defined:
